@@ -347,23 +347,30 @@ package core
 //@   call d.deconflicter#1 pure
 //@   call d.deconflicter#2 pure
 //@   call d.deconflicter#3 pure
-//@   call After#1 assert [compares-upload-times] $0 == file.Timestamp && $1 == existing.Timestamp
-//@   call After#1 bind newer = $ret0
+//@   call After#1 assert [same-content-compares-upload-times] file.Hash == existing.Hash && $0 == file.Timestamp && $1 == existing.Timestamp
+//@   call After#1 bind later = $ret0
+//@   call After#2 assert [compares-upload-times] file.Hash != existing.Hash && $0 == file.Timestamp && $1 == existing.Timestamp
+//@   call After#2 bind newer = $ret0
 //@   call Get#1 assert [by-path] len($1) == len(file.NameWithPath)
 // first version of a path: recorded for the split that uploaded it
 //@   call Insert#1 assert [first-version] as($2, mergeEntry).ID == splitID && as($2, mergeEntry).BundleEntry == file
+// identical content uploaded again later is no conflict (nothing is filed anywhere else) but the entry takes
+// the later upload time, which is what other versions are arbitrated against (F14 on the original code:
+// the time of whichever list was read first was kept, so the main tree depended on the arrival order)
+//@   call Insert#2 assert [same-content-keeps-latest-upload-time] file.Hash == existing.Hash && later_set && later && len($1) == len(file.NameWithPath) && as($2, mergeEntry).ID == splitID && as($2, mergeEntry).BundleEntry == file
 // the main tree entry is replaced only by a strictly newer version, whatever the mode
-//@   call Insert#2 assert [newer-wins] newer_set && newer && as($2, mergeEntry).ID == splitID && as($2, mergeEntry).BundleEntry == file
-//@   call Insert#2 assert [no-extra-path-in-ignore-mode] mode == model.IgnoreConflicts || splitID == existing.ID
-//@   call Insert#4 assert [newer-wins] newer_set && newer && as($2, mergeEntry).ID == splitID && as($2, mergeEntry).BundleEntry == file
+//@   call Insert#3 assert [newer-wins] newer_set && newer && as($2, mergeEntry).ID == splitID && as($2, mergeEntry).BundleEntry == file
+//@   call Insert#3 assert [no-extra-path-in-ignore-mode] mode == model.IgnoreConflicts || splitID == existing.ID
+//@   call Insert#5 assert [newer-wins] newer_set && newer && as($2, mergeEntry).ID == splitID && as($2, mergeEntry).BundleEntry == file
 // the losing version keeps its content and is filed for the split that uploaded it (was finding K7, repaired by 995fd83)
-//@   call Insert#3 assert [loser-kept] as($2, mergeEntry).BundleEntry.Hash == existing.Hash && as($2, mergeEntry).ID == existing.ID
+//@   call Insert#4 assert [loser-kept] as($2, mergeEntry).BundleEntry.Hash == existing.Hash && as($2, mergeEntry).ID == existing.ID
 //@   call d.deconflicter#1 assert [loser-split] $0 == existing.ID
-//@   call Insert#5 assert [older-loser-kept] !newer && as($2, mergeEntry).BundleEntry.Hash == file.Hash && as($2, mergeEntry).ID == splitID
+//@   call Insert#6 assert [older-loser-kept] !newer && as($2, mergeEntry).BundleEntry.Hash == file.Hash && as($2, mergeEntry).ID == splitID
 //@   call d.deconflicter#2 assert [older-loser-split] $0 == splitID && $1 == existing.NameWithPath
 //@   call d.deconflicter#3 assert [older-loser-key] $0 == splitID && $1 == file.NameWithPath
 //@   call WrapWithLog#1 assert [forbid-newer] mode == model.ForbidConflicts && file.Hash != existing.Hash && splitID != existing.ID
 //@   call WrapWithLog#2 assert [forbid-older] mode == model.ForbidConflicts && file.Hash != existing.Hash && splitID != existing.ID
+//@   only Insert 6
 
 // every packed entry is stamped with its own upload time, taken when that entry is received
 //@ func (*fileIndex).pack
